@@ -91,6 +91,9 @@ def _open_explicit(arg):
 def _replay(arg):
     """One history in one forked process."""
     tid, hist, paths = arg
+    mf = []
+    if isinstance(hist, dict):      # {'h': opens, 'mf': members of a final pncmfopen}
+        hist, mf = hist['h'], hist['mf']
     import warnings
     warnings.simplefilter('ignore')
     import PseudoNetCDF as pnc
@@ -119,6 +122,42 @@ def _replay(arg):
             dg = '<none>'
         ra = intern()
         steps.append({'f': fid, 'rb': rb, 'ra': ra, 'cls': cls, 'digest': dg})
+    # the multi-file helper opens its members one after the other with pncopen
+    # (observed from outside: the module-level name it calls is wrapped); every
+    # member is an open of the history like any other
+    if mf:
+        orig = gr.pncopen
+        got = []
+
+        def rec(*a, **k):
+            try:
+                f = orig(*a, **k)
+            except Exception as ex:
+                got.append((a[0], None, ex))
+                raise
+            got.append((a[0], f, None))
+            return f
+        rb = intern()
+        gr.pncopen = rec
+        try:
+            pnc.pncmfopen([paths[x] for x in mf], stackdim='TSTEP')
+        except Exception:
+            pass
+        finally:
+            gr.pncopen = orig
+        ra = intern()
+        byp = {paths[x]: x for x in mf}
+        for pth, f, ex in got:
+            if f is not None:
+                cls, dg = clsid(type(f)), digest(f)
+                keep.append(f)
+            else:
+                cls, dg = '<raised:%s>' % type(ex).__name__, '<none>'
+            steps.append({'f': byp[pth], 'rb': rb, 'ra': ra, 'cls': cls,
+                          'digest': dg, 'via': 'pncmfopen'})
+        # members the helper never opened (an earlier one raised)
+        for x in mf[len(got):]:
+            pass
     res = {'tid': tid, 'regs': regs, 'steps': steps}
     # leave without running finalisers of half-open datasets
     sys.stdout.flush()
@@ -206,6 +245,14 @@ def run(tier):
         nlong = 60 if tier == 'quick' else 1500
         for i in range(nlong):
             todo.append([rnd.choice(files) for _ in range(rnd.randint(5, 9))])
+        # histories that end in a multi-file open of two or three members
+        # (members of different formats included)
+        nmf = 60 if tier == 'quick' else 1500
+        for i in range(nmf):
+            todo.append({'h': [rnd.choice(files)
+                               for _ in range(rnd.randint(0, 2))],
+                         'mf': [rnd.choice(files)
+                                for _ in range(rnd.randint(2, 3))]})
         args = [(i + 1, h, paths) for i, h in enumerate(todo)]
         res = run_cases(_replay, args, timeout=120)
         traces = []
